@@ -175,6 +175,17 @@ func ValidateCounterpartyID(id string, protocol ProtocolID) error {
 		return errors.New("counterparty ID must be a valid UTF-8 string")
 	}
 
+	// The counterparty ID is also a non terminal part of the composite store
+	// keys of the dispatch statistics. The codec of those key parts copies one
+	// byte per character, so an ID with multi byte characters is stored under
+	// a corrupted key: distinct IDs collide and the statistics can no longer be
+	// walked, which empties the exported genesis.
+	for i := 0; i < len(id); i++ {
+		if id[i] >= utf8.RuneSelf {
+			return errors.New("counterparty ID must contain only ASCII characters")
+		}
+	}
+
 	var valid bool
 	switch protocol {
 	case PROTOCOL_IBC:
